@@ -7,3 +7,4 @@
 pub mod err;
 pub mod probe;
 pub mod order;
+pub mod role;
